@@ -560,11 +560,23 @@ Proof.
   induction ps as [|[u|u|] t IH]; simpl; try rewrite IH; reflexivity.
 Qed.
 
-Lemma opt_nums_map : forall v, opt_nums (map jopt_num v) = Ok v.
-Proof. induction v as [|[q|] t IH]; simpl; try rewrite IH; reflexivity. Qed.
+Lemma json_fnum_json : forall x, json_fnum (fnum_json x) = Some x.
+Proof. intros [q| | |]; reflexivity. Qed.
 
-Lemma nums_map : forall v, nums (map JNum v) = Ok v.
-Proof. induction v as [|q t IH]; simpl; try rewrite IH; reflexivity. Qed.
+Lemma opt_nums_map : forall v, opt_nums (map jopt_num v) = Ok v.
+Proof.
+  induction v as [|[x|] t IH]; cbn [map jopt_num opt_nums]; [reflexivity| |rewrite IH; reflexivity].
+  pose proof (json_fnum_json x) as E. destruct x; cbn [fnum_json opt_nums] in *; rewrite ?E, IH; try reflexivity.
+  all: unfold tok_inf, tok_ninf, tok_nan in *; cbn [opt_nums]; rewrite E, IH; reflexivity.
+Qed.
+
+Lemma nums_map : forall v, nums (map fnum_json v) = Ok v.
+Proof.
+  induction v as [|x t IH]; cbn [map nums]; [reflexivity|]. rewrite json_fnum_json, IH. reflexivity.
+Qed.
+
+Lemma fnum_eqb_refl : forall x, fnum_eqb x x = true.
+Proof. intros [q| | |]; simpl; try reflexivity. apply Q_eqb_eq. reflexivity. Qed.
 
 Lemma decode_fitness_json : forall f, decode_fitness (fitness_json f) = Ok (tuple_fit f).
 Proof.
@@ -573,8 +585,8 @@ Proof.
     change (lookup "_values" _) with (Some (JArr (map jopt_num v))). cbv beta iota.
     rewrite opt_nums_map. reflexivity.
   - change (class_of _) with (Some CMultiFit). cbv beta iota.
-    change (lookup "_weights" _) with (Some (JArr (map JNum w))).
-    change (lookup "wvalues" _) with (Some (JArr (map JNum v))). cbv beta iota.
+    change (lookup "_weights" _) with (Some (JArr (map fnum_json w))).
+    change (lookup "wvalues" _) with (Some (JArr (map fnum_json v))). cbv beta iota.
     rewrite !nums_map. reflexivity.
 Qed.
 
@@ -693,12 +705,13 @@ Theorem loaded_fitness_behaves : forall f,
   hash_raises (tuple_fit f) = false /\
   forall f', fit_values_kind f' = Tuple -> cmp_raises (tuple_fit f) f' = false /\ cmp_raises f' (tuple_fit f) = false.
 Proof.
-  intros f. assert (R : forall l, list_eqb Q_eqb l l = true) by (intros; apply list_eqb_eq; [apply Q_eqb_eq|reflexivity]).
+  intros f.
+  assert (R : forall l, list_eqb fnum_eqb l l = true).
+  { induction l as [|x t IH]; simpl; [reflexivity|]. rewrite fnum_eqb_refl, IH. reflexivity. }
+  assert (R' : forall l, list_eqb optQ_eqb l l = true).
+  { induction l as [|[x|] t IH]; simpl; [reflexivity| |exact IH]. rewrite fnum_eqb_refl, IH. reflexivity. }
   repeat split.
-  - destruct f as [k v|kw kv w v]; simpl.
-    + apply list_eqb_eq; [|reflexivity]. intros [p|] [q|]; simpl; try (split; congruence).
-      rewrite Q_eqb_eq. split; [intros ->; reflexivity|intros E; inversion E; reflexivity].
-    + rewrite !R. reflexivity.
+  - destruct f as [k v|kw kv w v]; simpl; [apply R'|rewrite !R; reflexivity].
   - destruct f; reflexivity.
   - destruct f; reflexivity.
   - unfold cmp_raises. destruct f; destruct f'; simpl in *; subst; simpl; rewrite ?andb_false_r; reflexivity.
@@ -954,7 +967,7 @@ Lemma ex_roundtrip :
 Proof. do 3 eexists. repeat split; vm_compute; reflexivity. Qed.
 
 Definition ex_ind : individual :=
-  mkInd (FMulti Tuple Tuple [Qmake (-1) 1; Qmake 1 1] [Qmake (-3) 2; Qmake 2 1]) ex_graph
+  mkInd (FMulti Tuple Tuple [Fin (Qmake (-1) 1); Fin (Qmake 1 1)] [Fin (Qmake (-3) 2); PInf]) ex_graph
         [("note", JStr "x")] (Some 2%Z)
         (Some (mkPO "crossover" Tuple [JStr "one_point"] Tuple [PLive "p1"; PLive "p2"] "op-uid")) "ind-uid".
 
